@@ -89,7 +89,10 @@ pub fn stages(prop: &str, tier: &str) -> Vec<Stage> {
             v.push(stage("pairs and triples of 1-op threads on a 70-order book", { let mut p = programs_1op(2, &[Book::B9], &big); p.extend(programs_1op(3, &[Book::B9], &big)); p }, Some(2)));
             // a wider alphabet for the unbounded two-thread programs: iceberg adds, amend to zero display
             // (an order that can give nothing), a second price move
-            v.push(stage("pairs of 1-op threads, wide alphabet, eight books, unbounded", programs_1op(2, &books6, &wide), None));
+            // no bound at all where that is feasible (short programs), bound 5 for the long sweeps
+            let (short, long) = split_by_length(programs_1op(2, &books6, &wide), 34);
+            v.push(stage("pairs of 1-op threads, wide alphabet, eight books, programs of <= 34 steps, unbounded", short, None));
+            v.push(stage("pairs of 1-op threads, wide alphabet, eight books, longer programs, bound 5", long, Some(5)));
             v.push(stage("triples of 1-op threads, eight books", programs_1op(3, &books6, &alpha), Some(3)));
             v.push(stage("triples of 1-op threads, reduced alphabet, B1-B4, bound 4", programs_1op(3, &BOOKS4, &small), Some(4)));
             v.push(stage("pairs of 2-op threads, full alphabet, B1-B4", programs_2x2(&BOOKS4, &alpha), Some(3)));
@@ -148,6 +151,24 @@ pub fn stages(prop: &str, tier: &str) -> Vec<Stage> {
         _ => {}
     }
     v
+}
+
+/// splits programs by the number of scheduled steps of their default schedule
+fn split_by_length(ps: Vec<Program>, max_steps: u32) -> (Vec<Program>, Vec<Program>) {
+    sched::install_hook();
+    let cfg = exec_cfg(false, false);
+    let mut short = vec![];
+    let mut long = vec![];
+    for p in ps {
+        let ex = execute(&p, &[], &cfg);
+        if ex.out.steps <= max_steps && !ex.out.aborted {
+            short.push(p);
+        } else {
+            long.push(p);
+        }
+    }
+    sched::uninstall_hook();
+    (short, long)
 }
 
 fn wall_cap(tier: &str, n: usize) -> Duration {
